@@ -59,7 +59,9 @@ pub fn gen_case(r: &mut Rng, idx: u64, thorough: bool) -> CrashCase {
     }
     let old_today = if idx % 2 == 0 { None } else { Some(today - r.range(1, (days - 3) as i64) as i32) };
     let later_today = today + *r.pick(&[0, 0, 1, 3, 9]);
-    CrashCase { year, old_today, today, later_today, cal, every: 1 }
+    // a full year has ~6000 byte offsets: take every 5th one there (and every date only near the end)
+    let every = if days > 100 { 5 } else { 1 };
+    CrashCase { year, old_today, today, later_today, cal, every }
 }
 
 fn remote_arg(m: &BTreeMap<i32, Vec<(i32, Decimal)>>) -> String {
@@ -186,11 +188,12 @@ pub fn run_case(id: &str, c: &CrashCase, out: &mut String) {
     let rem_new = remote_at(&c.cal, c.today, c.year);
     let rem_later = remote_at(&c.cal, c.later_today, c.year);
     out.push_str(&format!(
-        "case {} fxcrash year={} today={} later={} old={}\n",
+        "case {} fxcrash year={} today={} later={} every={} old={}\n",
         id,
         c.year,
         c.today,
         c.later_today,
+        c.every,
         c.old_today.map(|t| t.to_string()).unwrap_or("-".to_string())
     ));
     for (y, v) in &rem_new {
@@ -227,7 +230,9 @@ pub fn run_case(id: &str, c: &CrashCase, out: &mut String) {
         points.push((s.to_string(), "ACB_VERIF_CRASH_AT".to_string(), s.to_string()));
     }
     points.push(("none".to_string(), "ACB_VERIF_NOTHING".to_string(), "1".to_string()));
-    let dates: Vec<i32> = ((jan1_jd(c.year) - 1)..=(c.later_today + 1)).collect();
+    let dates: Vec<i32> = ((jan1_jd(c.year) - 1)..=(c.later_today + 1))
+        .filter(|d| c.every == 1 || c.later_today - *d < 40 || (*d - jan1_jd(c.year)) % 15 == 0)
+        .collect();
     // what a loader with no cache at all answers in the later run
     let mut refs = Vec::new();
     for d in &dates {
@@ -322,6 +327,6 @@ pub fn parse_case(lines: &[String]) -> Option<CrashCase> {
         today: kv("today")?.parse().ok()?,
         later_today: kv("later")?.parse().ok()?,
         cal,
-        every: 1,
+        every: kv("every").and_then(|v| v.parse().ok()).unwrap_or(1),
     })
 }
